@@ -184,6 +184,11 @@ def run_tlc_trace(trace_module, trace_file, wdir, tag, timeout=1800):
         elif line.startswith("Error:") or "Exception" in line:
             errs.append(line.strip())
     nlines = sum(1 for _ in open(trace_file))
+    if (r.returncode != 0 or errs or done != nlines) and viol:
+        # The monitors of the other properties keep judging a run after a violation; if the diverged run then makes
+        # the specification itself fail to evaluate, the violation printed before stands (it is a monitor failure
+        # established by TLC); the rest of this trace file stays unexamined.
+        return dict(viol=viol, done=done or 0, cnt=cnt, stopped=errs[:1] or ["incomplete"])
     if r.returncode != 0 or errs or done != nlines:
         raise ToolError("trace validation failed on %s (rc %s, consumed %s of %s): %s ; see %s"
                         % (trace_file, r.returncode, done, nlines, errs[:3], out))
@@ -266,6 +271,8 @@ def run_model(model, M, tier, seed, wdir, extra_behaviours=None):
         spec_hash.update(fn.encode())
         spec_hash.update(open(os.path.join(SPEC, fn), "rb").read())
     spec_hash.update(open(os.path.abspath(__file__), "rb").read())
+    if os.path.exists(KNOWN):
+        spec_hash.update(open(KNOWN, "rb").read())
     key = hashlib.sha256(json.dumps([model, tier, seed, binhash, spec_hash.hexdigest(),
                                      json.dumps({k: v for k, v in M.items() if k != "selftest"}, sort_keys=True, default=str)]).encode()).hexdigest()[:24]
     cache = os.path.join(WORK, "cache", key + ".json")
@@ -410,6 +417,17 @@ def run_model(model, M, tier, seed, wdir, extra_behaviours=None):
             v["trace_file"] = tf
             viol.append(v)
     res["monitor_evaluations"] = cnt
+    # A run is judged on after a violation, by the monitors of the other properties only (Trace_*.tla: `dead` is the
+    # set of properties already violated in the run).  What follows a *listed known finding* in the same run is a
+    # consequence of that finding (the ghost and the code have parted ways there) and is not reported.
+    known = load_known()
+    first = {}
+    for v in viol:
+        k = (v["trace_file"], v["run"])
+        first[k] = min(first.get(k, v["i"]), v["i"])
+    known_runs = {(v["trace_file"], v["run"]) for v in viol
+                  if v["i"] == first[(v["trace_file"], v["run"])] and match_known(v, known)}
+    viol = [v for v in viol if v["i"] == first[(v["trace_file"], v["run"])] or (v["trace_file"], v["run"]) not in known_runs]
     for k in M.get("need_cnt", []):
         if extra_behaviours is None and cnt.get(k, 0) == 0:
             res["vacuity"].append("counter %s stayed 0 on the recorded traces of model %s" % (k, model))
